@@ -93,6 +93,48 @@ def oracle_sock(case, impl, check_question=False):
     return None
 
 
+def oracle_upf_size(case, impl):
+    """C05 on the REAL upstream transports (area upfault: proxy -> resolver.DNS -> DoH / plain DNS over UDP): when the
+    upstream delivered a complete message of `up` bytes, the client's reply obeys the same size rules as with a scripted
+    upstream - a transport that cuts the message on its way in produces a shortened reply without TC."""
+    f = case.split(" ")
+    if len(f) < 5 or f[0] != "upf":
+        return None
+    which, proto, payload, fault = f[1], f[2], unhex(f[3]), f[4:]
+    parts = impl.split(" ")
+    if len(parts) != 2 or parts[0] in ("TIMEOUT", "ERR", "close", "SHORT"):
+        return None          # liveness under faults is C03's
+    adv = adv_size(payload)
+    if adv is None:
+        return None
+    up = None
+    if which == "doh" and fault[0] == "ok" and len(fault) >= 2:
+        up = int(fault[1])
+    if which == "dns53" and fault[0] != "none":
+        good = [d.split(":") for d in fault[0].split(",")
+                if d.split(":")[1] in ("match", "garbage") and int(d.split(":")[0]) < 300 and int(d.split(":")[2]) >= 2]
+        if good and good[0][1] == "match":
+            up = int(good[0][2])
+    if up is None or not (12 <= up <= 65000):
+        return None
+    rep = unhex(parts[0])
+    if proto == "tcp":
+        if len(rep) < 2 or int.from_bytes(rep[:2], "big") != len(rep) - 2:
+            return "TCP length prefix does not match the body"
+        rep = rep[2:]
+        if len(rep) != up:
+            return "TCP reply has %d bytes, the %s upstream's answer had %d" % (len(rep), which, up)
+        return None
+    lim = max(512, adv)
+    if len(rep) > lim:
+        return "UDP reply of %d bytes exceeds the client's limit %d" % (len(rep), lim)
+    if len(rep) < up and not (len(rep) >= 3 and rep[2] & 2):
+        return "UDP reply shortened from the %s upstream's %d bytes to %d without TC" % (which, up, len(rep))
+    if up <= lim and len(rep) != up:
+        return "the %s upstream's answer of %d bytes fits the limit %d but %d bytes were sent" % (which, up, lim, len(rep))
+    return None
+
+
 SPEC = dict(
         lean_module="NV.Props.C05",
         level_text="Kernel-checked theorems for every (advertised size, response length) pair: reply length <= max(512, advertised), "
@@ -100,7 +142,10 @@ SPEC = dict(
                    "re-translated from proxy/udp.go on every run and proved equal to the model; real sockets are driven on boundary grids.",
         level_note="Trusted: Lean kernel; translator for the truncation block; loopback sockets. TC-without-cut above 4094 bytes is a recorded finding (C01).",
         areas=[dict(name="sock", n_quick=4000, n_thorough=60000, shards_thorough=8, oracle=oracle_sock,
-                    nontrivial=lambda c, i: len(i) > 8)],
+                    nontrivial=lambda c, i: len(i) > 8),
+               # the same rules with the real upstream transports in between (DoH over HTTP/2, plain DNS over UDP)
+               dict(name="upfault", n_quick=70, n_thorough=1500, shards_thorough=8, oracle=oracle_upf_size, timeout=1200,
+                    nontrivial=lambda c, i: True)],
         trusted=COMMON_TRUST + ["kernel UDP/TCP loopback delivery", "translator /verif/extract (constants, truncation block)"],
         assumptions=["advertised sizes above 65507 are outside the property's quantifier (a UDP datagram cannot carry them)"],
 )
